@@ -97,7 +97,9 @@ Inductive event :=
 | EBody (tag ctx : N) (s : snapshot)                              (* a view body ran and saw ... *)
 | EIev (e : N) (before : snapshot) (o : outcome) (after : snapshot)  (* request.invoke_exception_view() called by a tween *)
 | EProbe (o : outcome) (s : snapshot)                             (* what reaches the excview tween from below *)
-| EFinal (o : outcome) (s : snapshot) (fin : option N).           (* what leaves it; request.exception in a finished callback *)
+| EFinal (o : outcome) (s : snapshot) (fin : option N)            (* what leaves it; request.exception in a finished callback *)
+| ECtlW (ix : N) (v : option N).                                  (* the request invoke_exception_view was CALLED ON (when another
+                                                                     one is passed as request=) had attribute ix written / deleted *)
 
 Record state := mkSt { st_attrs : amap; st_log : list event }.
 
@@ -252,12 +254,17 @@ Definition bodies_of (P : params) (nm : named) (user : list vdecl) : list (N * b
 Inductive under_prog :=
 | UPass                                   (* return handler(request) *)
 | URaise (e : N)                          (* raise e without calling the handler *)
-| UCatch (rr sec : bool) (thn : option N). (* try: r = handler(request)
+| URetry                                  (* try: handler(request) except BaseException: pass
+                                             then request.path_info = <another, unrouted path>; return handler(request)
+                                             -- the same request object dispatched twice *)
+| UCatch (rr sec via : bool) (thn : option N). (* [via]: through another request object c: c.invoke_exception_view(request=request)
+                                             try: r = handler(request)
                                              except Exception: r = request.invoke_exception_view(reraise=rr, secure=sec)
                                              then raise thn, or return r *)
 
 Record rinfo := mkRI {
   ri_req : request;            (* C03: ordinary lookup *)
+  ri_req2 : option request;    (* the ordinary lookup of the second dispatch (URetry) *)
   ri_comb_sro : list N;        (* (oracle) request_iface.combined.__sro__ *)
   ri_unrouted_sro : list N;    (* (oracle) IRequest.combined.__sro__: request_iface is set by the router, below the tweens *)
   ri_deny : bool;              (* the security policy refuses *)
@@ -315,20 +322,24 @@ Definition call_view_sec (P : params) (R : registry) (sec : bool) (cls : N) (rq 
   else call_loop_p P rq (find_views R cls (q_req_sro rq) (q_ctx_sro rq) (q_view_name rq)) false.
 
 (* the request as seen by the exception-view lookup: context = the exception object *)
-Definition exc_request_raw (combined : bool) (vname : text) (W : world) (ri : rinfo) (e : N) : request :=
+Definition exc_request_raw (own combined : bool) (vname : text) (W : world) (ri : rinfo) (e : N) : request :=
   let q := ri_req ri in
   mkReq (q_method q) (q_params q) (q_headers q) (q_xhr q)
-        (match ri_under ri with URaise _ => None | _ => q_matchdict q end)   (* no route matched yet: matchdict is None *)
+        (match ri_under ri with URaise _ => None | _ => q_matchdict q end)   (* no route matched yet: matchdict is None;
+                                                                                after a second dispatch without a route the
+                                                                                matchdict of the first one is still there *)
         (q_auth q) (q_upath q)
         [] false (q_regex q) (q_accept_q q) (q_truth q)
         (match ri_under ri with
          | URaise _ => ri_unrouted_sro ri        (* raised above the router: no route has been matched *)
-         | _ => if combined then ri_comb_sro ri else q_req_sro q
+         | URetry => ri_unrouted_sro ri          (* handle_request resets request_iface; the second dispatch matched no route *)
+         | _ => if own then (if combined then ri_comb_sro ri else q_req_sro q)
+                else ri_unrouted_sro ri          (* request_iface read from another, unrouted request object *)
          end)
         (x_sro (find_exc (w_excs W) e))
         vname.
 Definition exc_request (P : params) (W : world) (ri : rinfo) (e : N) : request :=
-  exc_request_raw (p_combined P) (p_view_name P) W ri e.
+  exc_request_raw true (p_combined P) (p_view_name P) W ri e.
 
 
 Definition fresh_of_class (cls : text) (site : N) : N :=
@@ -365,11 +376,14 @@ Definition iev (P : params) (W : world) (ri : rinfo) (site : N) (rr sec : bool) 
   end.
 
 (* Router.handle_request: root factory, traversal (oracle), ordinary view lookup and call *)
-Definition main_handler (P : params) (W : world) (ri : rinfo) (st : state) : outcome * state :=
+Definition req_of (ri : rinfo) (second : bool) : request :=
+  if second then match ri_req2 ri with Some r => r | None => ri_req ri end else ri_req ri.
+
+Definition main_handler (P : params) (W : world) (ri : rinfo) (second : bool) (st : state) : outcome * state :=
   match ri_root_raise ri with
   | Some e => (Raise e, st)
   | None =>
-      match call_view (w_reg W) view_classifier (ri_req ri) with
+      match call_view (w_reg W) view_classifier (req_of ri second) with
       | Ran tag =>
           let '(o, evs, a) := run_body P W true (ri_deny ri) site_main tag ctx_resource (st_attrs st) in
           (o, mkSt a (st_log st ++ evs))
@@ -381,10 +395,11 @@ Definition main_handler (P : params) (W : world) (ri : rinfo) (st : state) : out
 (* the harness tween under the excview tween *)
 Definition under_tween (P : params) (W : world) (ri : rinfo) (st : state) : outcome * state :=
   match ri_under ri with
-  | UPass => main_handler P W ri st
+  | UPass => main_handler P W ri false st
+  | URetry => let '(_, st1) := main_handler P W ri false st in main_handler P W ri true st1
   | URaise e => (Raise e, st)
-  | UCatch rr sec thn =>
-      let '(o, st1) := main_handler P W ri st in
+  | UCatch rr sec via thn =>
+      let '(o, st1) := main_handler P W ri false st in
       let '(o2, st2) :=
         match o with
         | Raise e =>
@@ -508,11 +523,11 @@ Definition iev_pm (P : params) (W : world) (ri : rinfo) (site : N) (rr sec : boo
   | Some (Resp r) => (Resp r, mkSt (set_all (p_set_after P) e attrs') log)
   end.
 
-Definition main_handler_pm (P : params) (W : world) (ri : rinfo) (st : state) : outcome * state :=
+Definition main_handler_pm (P : params) (W : world) (ri : rinfo) (second : bool) (st : state) : outcome * state :=
   match ri_root_raise ri with
   | Some e => (Raise e, st)
   | None =>
-      let rq := ri_req ri in
+      let rq := req_of ri second in
       let '(res, evs, a) :=
         comps_loop P W true (ri_deny ri) site_main ctx_resource id_h_pme rq
           (find_views (w_reg W) view_classifier (q_req_sro rq) (q_ctx_sro rq) (q_view_name rq)) None (st_attrs st) [] in
@@ -520,18 +535,19 @@ Definition main_handler_pm (P : params) (W : world) (ri : rinfo) (st : state) : 
   end.
 
 (* the three tweens, generic in the two functions above *)
-Definition under_tween_g (W : world) (ri : rinfo) (mh : state -> outcome * state)
-    (ievf : N -> bool -> bool -> N -> state -> outcome * state) (st : state) : outcome * state :=
+Definition under_tween_g (W : world) (ri : rinfo) (mh : bool -> state -> outcome * state)
+    (ievf : bool -> N -> bool -> bool -> N -> state -> outcome * state) (st : state) : outcome * state :=
   match ri_under ri with
-  | UPass => mh st
+  | UPass => mh false st
   | URaise e => (Raise e, st)
-  | UCatch rr sec thn =>
-      let '(o, st1) := mh st in
+  | URetry => let '(_, st1) := mh false st in mh true st1
+  | UCatch rr sec via thn =>
+      let '(o, st1) := mh false st in
       let '(o2, st2) :=
         match o with
         | Raise e =>
             if isa W cn_Exception e then
-              let '(o2, st2) := ievf site_under rr sec e st1 in
+              let '(o2, st2) := ievf via site_under rr sec e st1 in
               (o2, add_log st2 (EIev e (snap (st_attrs st1)) o2 (snap (st_attrs st2))))
             else (o, st1)
         | Resp _ => (o, st1)
@@ -543,12 +559,12 @@ Definition under_tween_g (W : world) (ri : rinfo) (mh : state -> outcome * state
   end.
 
 Definition excview_tween_g (P : params) (W : world)
-    (ievf : N -> bool -> bool -> N -> state -> outcome * state) (o : outcome) (st : state) : outcome * state :=
+    (ievf : bool -> N -> bool -> bool -> N -> state -> outcome * state) (o : outcome) (st : state) : outcome * state :=
   match o with
   | Resp r => (Resp r, st)
   | Raise e =>
       if isa W (p_tween_catches P) e then
-        match ievf site_tween false true e st with
+        match ievf false site_tween false true e st with
         | (Resp r, st') => (Resp r, st')
         | (Raise e2, st') =>
             if isa W (p_handler_catches P) e2
@@ -558,8 +574,8 @@ Definition excview_tween_g (P : params) (W : world)
       else (Raise e, st)
   end.
 
-Definition run_request_g (P : params) (W : world) (ri : rinfo) (mh : state -> outcome * state)
-    (ievf : N -> bool -> bool -> N -> state -> outcome * state) : list event :=
+Definition run_request_g (P : params) (W : world) (ri : rinfo) (mh : bool -> state -> outcome * state)
+    (ievf : bool -> N -> bool -> bool -> N -> state -> outcome * state) : list event :=
   let st0 := mkSt (init_attrs ri) [] in
   let '(o1, st1) := under_tween_g W ri mh ievf st0 in
   let st1 := add_log st1 (EProbe o1 (snap (st_attrs st1))) in
@@ -567,7 +583,7 @@ Definition run_request_g (P : params) (W : world) (ri : rinfo) (mh : state -> ou
   st_log st2 ++ [EFinal o2 (snap (st_attrs st2)) (aget hn_exception (st_attrs st2))].
 
 Definition run_request_pm (P : params) (W : world) (ri : rinfo) : list event :=
-  run_request_g P W ri (main_handler_pm P W ri) (iev_pm P W ri).
+  run_request_g P W ri (main_handler_pm P W ri) (fun _ => iev_pm P W ri).
 
 (* ------------------------------------------------------------------ *)
 (* primitives and reference functions in the form the REGENERATED definitions (Gen/Facts_C14.v, produced by
@@ -583,6 +599,22 @@ Definition st_get (k : text) (st : state) : option N := aget k (st_attrs st).
 Definition st_set (k : text) (v : N) (st : state) : state := mkSt (aset k v (st_attrs st)) (st_log st).
 Definition st_del (k : text) (st : state) : state := mkSt (adel k (st_attrs st)) (st_log st).
 Definition st_mem (k : text) (st : state) : bool := match st_get k st with Some _ => true | None => false end.
+(* the attributes of the request invoke_exception_view was called on, when it is not the request being rendered:
+   kept as write events in the log (the reference model never writes them) *)
+Definition key_ix (k : text) : N :=
+  if text_eqb k hn_response then 0%N else if text_eqb k hn_exc_info then 1%N else if text_eqb k hn_exception then 2%N
+  else 9%N.
+Fixpoint ctl_lookup (ix : N) (l : list event) (acc : option N) : option N :=
+  match l with
+  | [] => acc
+  | ECtlW i v :: r => ctl_lookup ix r (if N.eqb i ix then v else acc)
+  | _ :: r => ctl_lookup ix r acc
+  end.
+Definition ctl_get (k : text) (st : state) : option N := ctl_lookup (key_ix k) (st_log st) None.
+Definition ctl_set (k : text) (v : N) (st : state) : state := add_log st (ECtlW (key_ix k) (Some v)).
+Definition ctl_del (k : text) (st : state) : state := add_log st (ECtlW (key_ix k) None).
+Definition ctl_mem (k : text) (st : state) : bool := match ctl_get k st with Some _ => true | None => false end.
+
 Definition sget (k : text) (s : saved) : option N := match assoc k s with Some v => v | None => None end.
 
 (* reference: with hide_attrs(request, *names): body *)
@@ -614,8 +646,8 @@ Definition isexception_m (c : ctxbits) : bool :=
   (cb_iface c && cb_ext c) || cb_inst c || (cb_class c && cb_sub c).
 
 (* the whole request with the three tween-level functions given *)
-Definition run_request_x (W : world) (ri : rinfo) (mh : state -> outcome * state)
-    (ievf : N -> bool -> bool -> N -> state -> outcome * state)
+Definition run_request_x (W : world) (ri : rinfo) (mh : bool -> state -> outcome * state)
+    (ievf : bool -> N -> bool -> bool -> N -> state -> outcome * state)
     (xtw : outcome -> state -> outcome * state) : list event :=
   let st0 := mkSt (init_attrs ri) [] in
   let '(o1, st1) := under_tween_g W ri mh ievf st0 in
@@ -714,6 +746,7 @@ Fixpoint judge_under (sregs : list reg) (W : world) (ri : rinfo) (rr sec : bool)
   | [] => true
   | EIev e before o after :: r =>
       judge_render sregs W ri (Some rr) sec e before (rev mid) o after && judge_under sregs W ri rr sec [] r
+  | ECtlW _ _ :: r => false     (* the request the method was called on is left alone *)
   | ev :: r => if is_exc_body ev then judge_under sregs W ri rr sec (ev :: mid) r else judge_under sregs W ri rr sec mid r
   end.
 
@@ -724,8 +757,8 @@ Fixpoint split_probe (l : list event) (acc : list event) : option (list event * 
   | ev :: r => split_probe r (ev :: acc)
   end.
 
-Definition sec_of (u : under_prog) : bool := match u with UCatch _ sec _ => sec | _ => true end.
-Definition rr_of (u : under_prog) : bool := match u with UCatch rr _ _ => rr | _ => false end.
+Definition sec_of (u : under_prog) : bool := match u with UCatch _ sec _ _ => sec | _ => true end.
+Definition rr_of (u : under_prog) : bool := match u with UCatch rr _ _ _ => rr | _ => false end.
 
 (* [tolerant]: direct invoke_exception_view(secure=False) calls are not judged (known finding
    C14-permissive-skips-predicates) *)
@@ -817,17 +850,20 @@ Definition get_under (v : val) : option under_prog :=
   match v with
   | VL [VI 0%Z] => Some UPass
   | VL [VI 1%Z; VI e] => Some (URaise (Z.to_N e))
-  | VL [VI 2%Z; rr; sec; thn] =>
-      olet rr := get_bool rr in olet sec := get_bool sec in olet thn := get_opt get_N thn in Some (UCatch rr sec thn)
+  | VL [VI 2%Z; rr; sec; via; thn] =>
+      olet rr := get_bool rr in olet sec := get_bool sec in olet via := get_bool via in
+      olet thn := get_opt get_N thn in Some (UCatch rr sec via thn)
+  | VL [VI 3%Z] => Some URetry
   | _ => None
   end.
 Definition get_rinfo (v : val) : option (N * rinfo) :=
   match v with
-  | VL [ph; rq; comb; unr; deny; rootr; und; pre] =>
-      olet ph := get_N ph in olet rq := get_request rq in olet comb := get_Ns comb in olet unr := get_Ns unr in
+  | VL [ph; rq; rq2; comb; unr; deny; rootr; und; pre] =>
+      olet ph := get_N ph in olet rq := get_request rq in olet rq2 := get_opt get_request rq2 in
+      olet comb := get_Ns comb in olet unr := get_Ns unr in
       olet deny := get_bool deny in
       olet rootr := get_opt get_N rootr in olet und := get_under und in olet pre := get_opt get_N pre in
-      Some (ph, mkRI rq comb unr deny rootr und pre)
+      Some (ph, mkRI rq rq2 comb unr deny rootr und pre)
   | _ => None
   end.
 Definition get_named (v : val) : option named :=
@@ -846,6 +882,7 @@ Definition put_event (W : world) (ev : event) : val :=
   | EIev e b o a => VL [VI 1; vN e; put_snap b; put_outcome W o; put_snap a]
   | EProbe o s => VL [VI 2; put_outcome W o; put_snap s]
   | EFinal o s f => VL [VI 3; put_outcome W o; put_snap s; vopt vN f]
+  | ECtlW i v => VL [VI 4; vN i; vopt vN v]
   end.
 
 Definition get_snap (v : val) : option snapshot := get_list_of (get_opt get_N) v.
@@ -864,6 +901,7 @@ Definition get_event (v : val) : option event :=
   | VL [VI 2%Z; o; s] => olet o := get_outcome o in olet s := get_snap s in Some (EProbe o s)
   | VL [VI 3%Z; o; s; f] =>
       olet o := get_outcome o in olet s := get_snap s in olet f := get_opt get_N f in Some (EFinal o s f)
+  | VL [VI 4%Z; VI i; v] => olet v := get_opt get_N v in Some (ECtlW (Z.to_N i) v)
   | _ => None
   end.
 
